@@ -393,6 +393,16 @@ def r1_neighbour(program, rep):
         head = v[1] if v[0] in ("comp", "item") else v
         if head[0] in ("call", "callv", "opaque"):
             vague.append(v)
+        # ... as may an element picked out of a sequence by a position that
+        # was remembered earlier (x = seq[k] with k kept from a scan)
+        h_ = v
+        while h_[0] in ("comp", "item"):
+            if h_[0] == "item" and any(
+                    st_[0] in ("mu", "phi", "index") for st_ in subterms(
+                        h_[2])):
+                vague.append(v)
+                break
+            h_ = h_[1]
         return False
     vague = []
     for n, sub, base, key in loads:
@@ -551,9 +561,17 @@ def r3_copy(program, rep):
     if okc:
         av, an, _, recv, (item,) = att[0]
         NP, DIR, NN = recv[1], item[1], item[2]
-        guard = mk_cmp("In", DIR, ("call", ("global", "links_between"),
-                                   (("attr", NP, "chip"),
-                                    ("attr", NN, "chip"), MACH2), ()))
+        # the child's chip: of the new node, or of the old node the new one
+        # is a copy of (RoutingTree(old.chip).chip is old.chip)
+        chips_ = [("attr", NN, "chip")]
+        for st_ in [y for x in alternatives(NN) for y in subterms(x)]:
+            if st_[0] == "callv" and st_[1] == ("global", "RoutingTree") \
+                    and len(st_[2]) == 1 and st_[2][0][0] == "attr" and \
+                    st_[2][0][2] == "chip" and st_[2][0] not in chips_:
+                chips_.append(st_[2][0])
+        guards = [mk_cmp("In", DIR, ("call", ("global", "links_between"),
+                                     (("attr", NP, "chip"), ch_, MACH2), ()))
+                  for ch_ in chips_]
         bv, bn, _, _, (pair,) = brk[0]
         fa_, fb_ = facts_at(av, an), facts_at(bv, bn)
         if not any(st_[0] in ("call", "callv") and
@@ -564,8 +582,9 @@ def r3_copy(program, rep):
             raise AnalysisError("copy_and_disconnect_tree: the test that a "
                                 "hop is a working link does not use "
                                 "links_between(parent, child, machine)")
-        okc = (guard, True) in fa_ and (guard, False) in fb_ and \
-            pair == ("tuple", ("attr", NP, "chip"), ("attr", NN, "chip"))
+        okc = any((g_, True) in fa_ and (g_, False) in fb_
+                  for g_ in guards) and \
+            pair in [("tuple", ("attr", NP, "chip"), ch_) for ch_ in chips_]
     rep.check(okc, "C03-R3", qual(cp), "a child is attached iff its own hop "
               "direction is one of the working links from the parent's chip "
               "to the child's chip; otherwise the pair is recorded as "
